@@ -89,7 +89,14 @@ def run_shard(spec, acc):
     decA = claimed_decoder(sources)
     decB = claimed_decoder(sources, preferred_units={PhysicalQuantities.TEMPERATURE: "C", PhysicalQuantities.ANGLE: "deg",
                                                      PhysicalQuantities.SPEED: "kts", PhysicalQuantities.PRESSURE: "bar"})
-    dec_off = NMEA2000Decoder()
+    # decoders with network mapping off, otherwise configured in every way (the sources have claimed on them too)
+    decs_off = [("default", NMEA2000Decoder())]
+    for label_, kw_ in (("manufacturer-exclude", {"exclude_manufacturer_code": ["Garmin"]}), ("manufacturer-include", {"include_manufacturer_code": ["raymarine"]}),
+                        ("units+pgn-filter", {"preferred_units": {PhysicalQuantities.ANGLE: "deg"}, "exclude_pgns": [130999]}), ("explicit-false", {"build_network_map": False})):
+        d_ = NMEA2000Decoder(**kw_)
+        for s_ in sources:
+            d_.decode_basic_string(wire.plain_line(6, 60928, s_, 255, CLAIM.to_bytes(8, "little")), already_combined=True)
+        decs_off.append((label_, d_))
     # a decoder that also dumps what it returns (the hash must not depend on it)
     import os
     import shutil
@@ -197,14 +204,15 @@ def run_shard(spec, acc):
                             raws[a.order], raws[b.order] = pair
                             observe(decA, d, dbx.pack(d, raws), nb, tag=f"key-swap-{pair}")
             # mapping off: no hash
-            try:
-                m = dec_off.decode_basic_string(wire.plain_line(3, d.pgn, 1, 255, p0.to_bytes(nb, "little")), already_combined=True)
-                if m is not None:
-                    acc.count("mapping_off_checked")
-                    if m.hash is not None:
-                        acc.violation("hash-set-with-mapping-off", f"{d.id}: hash {m.hash} although network mapping is off", {"definition": d.id})
-            except Exception:  # noqa: BLE001
-                pass
+            for label_, dec_off in decs_off:
+                try:
+                    m = dec_off.decode_basic_string(wire.plain_line(3, d.pgn, 1, 255, p0.to_bytes(nb, "little")), already_combined=True)
+                    if m is not None:
+                        acc.count("mapping_off_checked")
+                        if m.hash is not None:
+                            acc.violation("hash-set-with-mapping-off", f"{d.id}: hash {m.hash} although network mapping is off (decoder: {label_})", {"definition": d.id, "decoder": label_})
+                except Exception:  # noqa: BLE001
+                    pass
             if fam == 0:
                 cross.append((d, p0, nb, h0))
             acc.cover("definitions", d.id)
